@@ -148,6 +148,7 @@ func runC20List(c *rt.C) {
 	}
 	nl := nitro.NewNodeList(nil)
 	var model []ent // list order, head first
+	var removed []ent // nodes taken off the list earlier: re-adding them must behave like adding any node
 	used := map[string]int{}
 	var trace []string
 	nOps := 300
@@ -157,6 +158,15 @@ func runC20List(c *rt.C) {
 	}
 	for op := 0; op < nOps && !c.Failed(); op++ {
 		switch x := r.Intn(10); {
+		case x < 1 && len(removed) > 0:
+			// re-add a node that was removed earlier (its link field still holds whatever Remove left there)
+			i := r.Intn(len(removed))
+			e := removed[i]
+			removed = append(removed[:i], removed[i+1:]...)
+			nl.Add(e.n)
+			model = append([]ent{e}, model...)
+			trace = append(trace, fmt.Sprintf("Add(%s) again", e.item))
+			c.Sig("re-add/len=%d", min(len(model), 6))
 		case x < 5:
 			var item []byte
 			if len(model) > 0 && r.Intn(3) == 0 {
@@ -209,6 +219,7 @@ func runC20List(c *rt.C) {
 				if n != model[pos].n {
 					fail("list-remove-node", "Remove(%s) did not return the first node with an equal key (%d nodes carry it)", key, dups)
 				}
+				removed = append(removed, model[pos])
 				model = append(model[:pos:pos], model[pos+1:]...)
 			}
 		default:
